@@ -195,6 +195,104 @@ theorem fetch_fixed : fetchFixed = true := by decide
 failed outcome, and failed = non-kafka there) -/
 theorem close_rules_hold : Gen.ConnLegacy.doClosesNonKafka = true ∧ Gen.ConnLegacy.batchClosesNonKafka = true := by decide
 
+/-! ### a size prefix below 4 (negative ones included)
+
+conn.go waitResponse hands `size − 4` to the read closure; with a prefix below 4 (the correlation id alone takes 4
+bytes) that is ≤ 0 and every `readIntN` / `discardN` of read.go answers errShortRead without touching the stream: the
+operation fails and `do` closes the Conn.  This removes the assumption "size prefix ≥ 4" from the main theorems: a
+fully delivered frame either has an honest prefix (`aligned_or_closed`) or a prefix below 4 (`bad_size_closes`) — a
+prefix that is ≥ 4 but wrong is some other frame's honest prefix as far as the client can tell. -/
+
+/-- the program, run on a frame of announced size 0 (and nothing to read), stops with errShortRead having touched
+nothing — a closed computation, decided per operation and version below -/
+def shortAtZero (ps : List Step) (v : Nat) : Bool :=
+  match runSteps ps { ver := v } ⟨[], 0⟩ with
+  | (.error .shortRead, ⟨[], 0⟩) => true
+  | _ => false
+
+/-- … and then it does so whatever the stream holds (locality: the program cannot look beyond the announced size) -/
+theorem opRead_zero (o : OpSpec) (v : Nat) (topic inp : Bytes) (h : shortAtZero (o.parse v) v = true) :
+    opRead o v topic ⟨inp, 0⟩ = (.fail .shortRead, ⟨inp, 0⟩) := by
+  have hl := runSteps_local (o.parse v) inp { ver := v } ⟨[], 0⟩ (by simp [Enough])
+  simp only [ext, List.nil_append] at hl
+  unfold shortAtZero at h
+  unfold opRead
+  rw [hl]
+  cases hr : runSteps (o.parse v) { ver := v } ⟨[], 0⟩ with
+  | mk r s' =>
+    rw [hr] at h
+    obtain ⟨i, z⟩ := s'
+    cases r with
+    | ok _ => simp at h
+    | error e =>
+      cases e <;> cases i <;> cases z <;> simp at h
+      simp
+
+def startsFor (name : String) (vs : List Nat) : Bool :=
+  match specOf name with
+  | some o => vs.all (fun v => shortAtZero (o.parse v) v)
+  | none => false
+
+/-- every operation of the table (list-offsets included), every negotiated version, on the regenerated programs -/
+theorem ops_short_at_zero : doOps.all (fun n => startsFor n (versionsFor n)) = true := by decide
+
+/-- waitResponse on a header for the expected id whose size prefix is below 4: the read closure gets size 0 -/
+theorem wait_bad_size (c : Conn) (hdr rest : Bytes) (hstream : c.stream = hdr ++ rest) (hlen : hdr.length = 8)
+    (hsize : beInt (hdr.take 4) < 4) (hid : beInt (hdr.drop 4) = c.nextId) :
+    waitResponse c = .ok (0, rest) := by
+  have h1 : ¬ c.stream.length < 8 := by rw [hstream]; simp only [List.length_append]; omega
+  have h2 : c.stream.take 4 = hdr.take 4 := by
+    rw [hstream, List.take_append_of_le_length (by omega)]
+  have h3 : (c.stream.drop 4).take 4 = hdr.drop 4 := by
+    rw [hstream, List.drop_append_of_le_length (by omega)]
+    rw [List.take_append_of_le_length (by simp; omega)]
+    exact List.take_of_length_le (by simp; omega)
+  have h4 : c.stream.drop 8 = rest := by
+    rw [hstream, ← hlen, List.drop_left]
+  have hz : (beInt (hdr.take 4) - 4).toNat = 0 := by omega
+  unfold waitResponse
+  simp only [h1, ↓reduceIte, h2, h3, hid, h4, ne_eq, not_true_eq_false, hz]
+
+/-- a response for the expected correlation id whose size prefix is below 4: the operation fails (errShortRead) and the
+Conn is closed — for every such prefix, negative ones included, and whatever follows. -/
+theorem bad_size_closes (o : OpSpec) (v : Nat) (topic : Bytes) (c : Conn) (hdr rest : Bytes)
+    (hstart : shortAtZero (o.parse v) v = true) (hclose : o.closeOnErr = true) (hopen : c.closed = false)
+    (hstream : c.stream = hdr ++ rest) (hlen : hdr.length = 8)
+    (hsize : beInt (hdr.take 4) < 4) (hid : beInt (hdr.drop 4) = c.nextId) :
+    (connDo o v topic c).1 = .fail .shortRead ∧ (connDo o v topic c).2.closed = true := by
+  have hw := wait_bad_size c hdr rest hstream hlen hsize hid
+  unfold connDo
+  simp only [hopen, Bool.false_eq_true, ↓reduceIte, hw, opRead_zero o v topic rest hstart]
+  simp [Outcome.isFail, hclose]
+
+/-- fetch: the three header programs stop with errShortRead at size 0 (ReadBatchWith maps it to io.ErrUnexpectedEOF) -/
+theorem fetch_headers_short_at_zero : [2, 5, 10].all (fun v => shortAtZero (fetchHeader v) v) = true := by decide
+
+theorem bad_size_closes_fetch (fixed : Bool) (v : Nat) (off : Int) (b : Body) (c : Conn) (hdr rest : Bytes)
+    (hstart : shortAtZero (fetchHeader v) v = true) (hopen : c.closed = false)
+    (hstream : c.stream = hdr ++ rest) (hlen : hdr.length = 8)
+    (hsize : beInt (hdr.take 4) < 4) (hid : beInt (hdr.drop 4) = c.nextId) :
+    (connFetch fixed v off b c).1 = .fail .unexpectedEOF ∧ (connFetch fixed v off b c).2.closed = true := by
+  have hw := wait_bad_size c hdr rest hstream hlen hsize hid
+  have hl := runSteps_local (fetchHeader v) rest { ver := v } ⟨[], 0⟩ (by simp [Enough])
+  simp only [ext, List.nil_append] at hl
+  unfold shortAtZero at hstart
+  have hr : fetchRead fixed v off b ⟨rest, 0⟩ = (.fail .unexpectedEOF, ⟨rest, 0⟩) := by
+    unfold fetchRead
+    rw [hl]
+    cases hr : runSteps (fetchHeader v) { ver := v } ⟨[], 0⟩ with
+    | mk r s' =>
+      rw [hr] at hstart
+      obtain ⟨i, z⟩ := s'
+      cases r with
+      | ok _ => simp at hstart
+      | error e =>
+        cases e <;> cases i <;> cases z <;> simp at hstart
+        simp
+  unfold connFetch
+  simp only [hopen, Bool.false_eq_true, ↓reduceIte, hw, hr]
+  simp [Outcome.isFail]
+
 /-! ### the regenerated parser programs are the Kafka layouts (Spec/ConnFrames.lean, transcribed independently) -/
 
 open KV.Gen.ConnLegacy KV.Spec.ConnFrames in
